@@ -116,10 +116,25 @@ theorem handleInner_answer {cfg info env req a reason v nts r}
       · rename_i hc
         split at h
         · rename_i hnd
-          exact ⟨by simpa using hc, hni, .nak, .crypto, none, h, .inr ⟨by assumption, rfl, .inl ⟨rfl, rfl, hnd⟩⟩⟩
+          exact ⟨by simp at hc; exact hc.1, hni, .nak, .crypto, none, h, .inr ⟨by assumption, rfl, .inl ⟨rfl, rfl, hnd⟩⟩⟩
         · rename_i hd
           have hd' : act = .deny := by simpa using hd
-          exact ⟨by simpa using hc, hni, act, rsn, none, h, .inr ⟨by assumption, rfl, .inr ⟨hd', rfl⟩⟩⟩
+          exact ⟨by simp at hc; exact hc.1, hni, act, rsn, none, h, .inr ⟨by assumption, rfl, .inr ⟨hd', rfl⟩⟩⟩
+
+/-- a request whose authentication failed is answered only if it identifies our draft version (NTPv5) -/
+theorem handleInner_answer_draft {cfg info env req a reason v nts r}
+    (h : handleInner cfg info env req = .answer a reason v nts r) (hd : req.parse = .dec) :
+    req.draftOk = true := by
+  unfold handleInner at h
+  generalize intendedAction cfg env = ia at h
+  obtain ⟨act, rsn⟩ := ia
+  simp only [hd] at h
+  split at h
+  · simp at h
+  · split at h
+    · simp at h
+    · rename_i hc
+      simp at hc; exact hc.2
 
 /-- an answered datagram: the statistics entry names the action that was built -/
 theorem handle_respond {cfg info env req r n s} (h : handle cfg info env req = .respond r n s) :
@@ -138,6 +153,14 @@ theorem handle_respond {cfg info env req r n s} (h : handle cfg info env req = .
       subst h1 h2 h3
       exact ⟨a, reason, v, nts, hi, hs, rfl⟩
     · simp at h
+
+/-- every fresh cookie has the length of a cookie for the session's algorithm -/
+theorem mem_freshCookies {alg : Nat} {req : Req} {f : RField} (hf : f ∈ freshCookies alg req) :
+    f = .cookie (freshCookieLen alg) := by
+  have hf' := List.mem_of_mem_take hf
+  simp only [List.mem_filterMap] at hf'
+  obtain ⟨x, _, hx⟩ := hf'
+  cases x <;> simp [cookieFor] at hx <;> exact hx.2.symm
 
 /-- the builder an action selects (`handle_inner`'s final `match`) -/
 def build (info : Info) (env : Env) (req : Req) (cookie : Option Nat) : Resp → Built
